@@ -23,11 +23,12 @@ PROPERTY = {
              "non-zero entries and n>=2; distinct = canonical JSON of the case."),
     "assumptions": [
         "the explicit network is interpreted by the reference model (primary oracle); the explicitly built PyRates "
-        "circuit is not used because that path has its own listed findings",
+        "circuit (add_edges_from_matrix) is judged against the same reference in the matrix_edges arm",
         "coupling edge operators are algebraic and declare no constants (constants in a coupling operator are a listed "
         "finding)",
     ],
 }
+PROPERTY["rule"] += ' Arm matrix_edges: the explicit network built with CircuitTemplate.add_edges_from_matrix (entry [j, i] = weight of source i -> target j, non-square and asymmetric patterns, optional delay attribute, vectorize on/off) is run and compared with the same reference.'
 
 
 def expand(ps, zero_rows=True):
